@@ -87,7 +87,15 @@ impl tx3_tir::compile::Compiler for Compiler {
 
         self.latest_tx_body = Some(compiled_tx.transaction_body);
 
-        let size_fees = ops::eval_size_fees(&payload, &self.pparams, self.config.extra_fees);
+        // with protocol parameters near the top of the u64 range the fee cannot be represented
+        let size_fees =
+            ops::checked_eval_size_fees(&payload, &self.pparams, self.config.extra_fees)
+                .ok_or_else(|| {
+                    CompileError::ConsistencyError(format!(
+                        "the fee of a {} byte transaction does not fit 64 bits",
+                        payload.len()
+                    ))
+                })?;
 
         //let redeemer_fees = eval_redeemer_fees(tx, pparams)?;
 
